@@ -976,7 +976,7 @@ class Printer:
                 if isinstance(op, (ast.Eq, ast.Is)):
                     for a_, b_ in ((e.left, e.comparators[0]), (e.comparators[0], e.left)):
                         if isinstance(a_, ast.Call) and isinstance(a_.func, ast.Name) and a_.func.id == "type" and len(a_.args) == 1 \
-                                and isinstance(b_, ast.Name) and b_.id in ("str", "int"):
+                                and isinstance(b_, ast.Name) and (b_.id in ("str", "int") or self._leaf_class(b_.id)):
                             return ast.Call(func=ast.Name(id="isinstance", ctx=ast.Load()), args=[a_.args[0], b_], keywords=[]), pol
                 # orderings: only `<` survives --  a > b = b < a ;  a >= b = not (a < b) ;  a <= b = not (b < a)
                 if isinstance(op, ast.Gt):
@@ -1163,6 +1163,17 @@ class Printer:
             import re as _re
             memo[attr] = bool(anns) and all(_re.fullmatch(r"(Optional\[)?(list|tuple|List|Tuple)\[int(, (int|\.\.\.))*\]\]?( \| None)?", a) for a in anns)
         return memo[attr]
+
+    def _leaf_class(self, name: str) -> bool:
+        """A class of the package without subclasses: `type(x) is C` and `isinstance(x, C)` coincide."""
+        m = self.model
+        if m is None:
+            return False
+        memo = m.__dict__.setdefault("_symflow_leaf", {})
+        if name not in memo:
+            cs = [c for mod in m.modules.values() for c in mod.classes.values() if c.name == name]
+            memo[name] = len(cs) == 1 and not [k for k in m.subclasses(cs[0]) if k is not cs[0]]
+        return memo[name]
 
     def _is_class(self, name: str) -> bool:
         m = self.model
